@@ -225,8 +225,84 @@ func embDyn(r string, idx string, sz int) string {
 	return fmt.Sprintf("(eref %s %s %d)", r, idx, sz)
 }
 
-func sel(arr, idx string) string       { return "(select " + arr + " " + idx + ")" }
-func sto(arr, idx, v string) string    { return "(store " + arr + " " + idx + " " + v + ")" }
+// sel builds (select arr idx), looking through stores whose index is syntactically equal to idx (the stored value is
+// the answer) or syntactically different from it (the store is skipped). Struct copies otherwise produce towers of
+// select-over-store terms that the solver has to take apart one by one.
+func sel(arr, idx string) string {
+	for strings.HasPrefix(arr, "(store ") {
+		parts := splitTop(arr[1 : len(arr)-1])
+		if len(parts) != 4 {
+			break
+		}
+		if parts[2] == idx {
+			return parts[3]
+		}
+		if !refsSurelyDiffer(parts[2], idx) {
+			break
+		}
+		arr = parts[1]
+	}
+	return "(select " + arr + " " + idx + ")"
+}
+
+// sto builds (store arr idx v); a store over a store at the same (syntactic) index replaces it.
+func sto(arr, idx, v string) string {
+	if strings.HasPrefix(arr, "(store ") {
+		parts := splitTop(arr[1 : len(arr)-1])
+		if len(parts) == 4 && parts[2] == idx {
+			arr = parts[1]
+		}
+	}
+	return "(store " + arr + " " + idx + " " + v + ")"
+}
+
+var paramBase = regexp.MustCompile(`^\(rbase (p_[A-Za-z0-9_]+!\d+|\(iref p_[A-Za-z0-9_]+!\d+\))\)$`)
+var allocPlus = regexp.MustCompile(`^\(\+ ([A-Za-z0-9_!@.$]+) (\d+)\)$`)
+
+// refsSurelyDiffer: two reference terms that cannot denote the same cell, decided on their text alone: the same base with
+// different constant offsets, or bases that are the same allocation counter plus different constants.
+func refsSurelyDiffer(a, b string) bool {
+	if !strings.HasPrefix(a, "(mkref ") || !strings.HasPrefix(b, "(mkref ") {
+		return false
+	}
+	pa, pb := splitTop(a[1:len(a)-1]), splitTop(b[1:len(b)-1])
+	if len(pa) != 3 || len(pb) != 3 {
+		return false
+	}
+	if pa[1] == pb[1] {
+		return offsetsSurelyDiffer(pa[2], pb[2])
+	}
+	aa, ab := allocPlus.FindStringSubmatch(pa[1]), allocPlus.FindStringSubmatch(pb[1])
+	if aa != nil && ab != nil && aa[1] == ab[1] && aa[2] != ab[2] {
+		return true
+	}
+	// an object allocated by this function (allocation counter + k, k >= 1) is not a cell of an object a parameter
+	// points into (parameters are older than every allocation of the function: asserted with their type invariant)
+	fresh := func(p []string) bool { return p != nil && strings.HasPrefix(p[1], "alloc") && p[2] != "0" }
+	if (fresh(aa) && paramBase.MatchString(pb[1])) || (fresh(ab) && paramBase.MatchString(pa[1])) {
+		return true
+	}
+	return false
+}
+
+var offLitRe = regexp.MustCompile(`^-?\d+$`)
+var plusLit = regexp.MustCompile(`^\(\+ (.+) (\d+)\)$`)
+
+func offsetsSurelyDiffer(x, y string) bool {
+	if offLitRe.MatchString(x) && offLitRe.MatchString(y) {
+		return x != y
+	}
+	mx, my := plusLit.FindStringSubmatch(x), plusLit.FindStringSubmatch(y)
+	switch {
+	case mx != nil && my != nil && mx[1] == my[1]:
+		return mx[2] != my[2]
+	case mx != nil && mx[1] == y:
+		return mx[2] != "0"
+	case my != nil && my[1] == x:
+		return my[2] != "0"
+	}
+	return false
+}
 func arrSortOf(idx, elem string) string { return "(Array " + idx + " " + elem + ")" }
 
 func zeroOf(sort string) string {
@@ -262,6 +338,7 @@ type Query struct {
 	hasLambda bool // a definition in decls uses a z3 lambda
 	defined  map[string]string // defined constant -> body
 	typedArr map[string]bool   // array constant|bound -> typing axiom emitted
+	axioms   []string          // quantified facts about spec functions, left out of must-sat (cover) queries
 }
 
 func newQuery() *Query {
@@ -285,10 +362,15 @@ func (q *Query) declare(name, sort string) string {
 // define: a fresh constant with a definition (its body may only mention symbols declared so far).
 func (q *Query) define(hint, sort, body string) string {
 	q.fresh++
-	name := fmt.Sprintf("%s!%d", sanitize(hint), q.fresh)
+	return q.defineNamed(fmt.Sprintf("%s!%d", sanitize(hint), q.fresh), sort, body)
+}
+
+func (q *Query) defineNamed(name, sort, body string) string {
 	q.declared[name] = sort
 	q.decls = append(q.decls, fmt.Sprintf("(define-fun %s () %s %s)", name, sort, body))
-	q.hasLambda = true
+	if strings.Contains(body, "(lambda ") {
+		q.hasLambda = true
+	}
 	q.defined[name] = body
 	return name
 }
